@@ -280,6 +280,23 @@ func c17Session(x *Ctx) {
 						name = sib[r.Intn(len(sib))].Name()
 					}
 				}
+				if dotu && r.Pct(30) {
+					// first a create that is refused for a reason of its own (a hard link to a fid that does not
+					// exist, a device): nothing changes, and the fid is still the directory's
+					perm, ext := uint32(0x01000000|0o644), "4000000"
+					if r.Bool() {
+						perm, ext = 0x00800000|0o644, "c 1 3"
+					}
+					if rr := call(&Msg{Type: Tcreate, Fid: f.no, Name: fmt.Sprintf("refused%d", k), Perm: perm, Mode: 0, Ext: ext}); rr == nil || rr.M == nil {
+						return
+					} else if rr.M.Type != Rerror {
+						break // (a device node was made: not this step's business)
+					}
+					if !compare("a refused Tcreate (hard link to an unknown fid / device) through " + history(f)) {
+						break
+					}
+					x.Probe("session-refused-create-then-create")
+				}
 				mode := uint8(r.Pick(1, 2))
 				what := fmt.Sprintf("Tcreate(%q, mode %d) through %s", name, mode, history(f))
 				newRel := filepath.Join(f.rel, name)
